@@ -13,6 +13,7 @@ ASSUMPTIONS = A_COMMON + [
     "only through the bounded harness; their contracts live in the checks of C05/C06/C09",
 ]
 EXPLANATION = "every declared exceptional exit of the core mutation functions carries 'receiver unchanged' as an exceptional postcondition (frozen check, type check, refused assignment, callbacks raising inside the copy); raise sites after an in-place write exist only in the invalidation of dependants and are stated as such"
+SUBCHECKS = [("props._c06_for_c04", __import__("props.c06", fromlist=["TARGETS"]).TARGETS)]
 FINDINGS = ['inplace-multi-update']
 
 
@@ -32,4 +33,6 @@ def extra_checks(ft, tier, seed):
 
 
 def find_counterexample(fn, violation, outdir):
+    if fn and ("Mutator" in fn or "ItemMethod" in fn):
+        return harness.run_json("bounded/c06.py", ["--find", fn, outdir])          # collection mutators / element helpers
     return harness.run_json("bounded/spec.py", ["--find", PROPERTY, fn or "-", outdir])
